@@ -18,6 +18,7 @@ import (
 	"strconv"
 	"strings"
 	"syscall"
+	"time"
 
 	"github.com/gofiber/fiber/v3"
 	fiberlog "github.com/gofiber/fiber/v3/log"
@@ -106,6 +107,55 @@ func vmSize() uint64 {
 
 var stopProfile = func() {}
 
+// hungAbort is set once a served input did not complete: the spinning goroutine cannot be stopped,
+// so the rest of the run is skipped (the result so far, with the violation, is still written).
+var hungAbort bool
+
+// hangBudget is the real time one connection script may take before it is looked at (twice: the
+// second period is the confirmation). Ordinary scripts take about a millisecond of CPU; this is
+// the engine's own watchdog in the sense of DESIGN R2, not an oracle that reads the clock.
+const hangBudget = 20 * time.Second
+
+// guard is e.Guard plus the "nor hangs" clause: f runs on its own goroutine; when it has not
+// returned after two budgets the case is reported with the innermost fiber frame of the
+// goroutine that is still running, and the run is cut short. (Under virtual time the timers do
+// not fire while a goroutine spins; there the driver's watchdog is in charge.)
+func guard(e *ev.Env, c *ev.Case, sigPrefix string, detail any, f func()) (panicked bool) {
+	if hungAbort {
+		return true
+	}
+	done := make(chan bool, 1)
+	go func() { done <- e.Guard(c, sigPrefix, detail, f) }()
+	for period := 0; period < 2; period++ {
+		t := time.NewTimer(hangBudget)
+		select {
+		case p := <-done:
+			t.Stop()
+			return p
+		case <-t.C:
+		}
+	}
+	buf := make([]byte, 1<<20)
+	buf = buf[:runtime.Stack(buf, true)]
+	st := string(buf)
+	// the goroutine that serves the input is the one with fasthttp's serveConn / fiber frames
+	site := "unknown"
+	for _, g := range strings.Split(st, "\n\n") {
+		if strings.Contains(g, "github.com/gofiber/fiber/v3") && !strings.Contains(g, "wire.guard(") {
+			site = ev.PanicSite(g)
+			st = g
+			break
+		}
+	}
+	if len(st) > 3000 {
+		st = st[:3000]
+	}
+	hungAbort = true
+	e.Violation(c, "hang|"+site, "serving this input did not complete within "+(2*hangBudget).String()+" (the rest of this shard's cases are skipped)",
+		map[string]any{"input": detail, "stack": st})
+	return true
+}
+
 // allocOf returns the bytes allocated (cumulative, GC-independent) while f ran.
 func allocOf(f func()) uint64 {
 	var a, b runtime.MemStats
@@ -129,7 +179,7 @@ func measure(e *ev.Env, c *ev.Case, sigPrefix string, mk func() *fiber.App, inpu
 		w := drive.NewWire(app)
 		_, _ = w.Serve(warmReq, nil)
 		var d uint64
-		p := e.Guard(c, sigPrefix, hexOf(input), func() {
+		p := guard(e, c, sigPrefix, hexOf(input), func() {
 			d = allocOf(func() { out, _ = w.Serve(input, nil) })
 		})
 		if p {
